@@ -74,6 +74,9 @@ func execImpl(c *props.Case) (got []hist.Obs, herr string) {
 	if sp, ok := c.Meta["savepath"].(func(string) string); ok {
 		w.SavePath = sp
 	}
+	if cfg, ok := c.Meta["world"].(func(*hist.World)); ok {
+		cfg(w) // per-case configuration of the implementation-side world (C14: form-choosing builder)
+	}
 	return w.Exec(c.Hist), ""
 }
 
